@@ -15,7 +15,9 @@ EXPLANATION = (
     "only under the key T::id() of the operation's own T; into_child/into_parent move exactly {parent: self, fresh "
     "map} resp. (self.parent, detached self.map). (R5) the entry API (Entry / OccupiedEntry / VacantEntry) evaluated on an "
     "occupied and a vacant std entry applies exactly the HashMap entry primitive each method names, with the caller's "
-    "value, and runs the caller's closure exactly when occupied (and_modify*) resp. vacant (or_insert_with / or_default). NOT decided: equality of returned values with a model over all "
+    "value, and runs the caller's closure exactly when occupied (and_modify*) resp. vacant (or_insert_with / or_default). (R6) State's named accessors (populations[_mut], random_mut, log, iterations, "
+    "evaluations, pareto_front) ask the registry for exactly the named type and return its answer; best_individual() / "
+    "best_objective_value() are the recorded best, None when empty or absent. NOT decided: equality of returned values with a model over all "
     "histories (run-time); HashMap, RefCell and better_any downcasts are trusted.")
 ASSUMPTIONS = ["std::collections::HashMap and better_any::Tid behave as documented"]
 
